@@ -113,7 +113,7 @@ HDR = core.HDR.replace('Import Base Spec.', 'Import Base Spec Sem.')
 
 def run(tier, seed):
     t0 = time.time(); idx, info = flow.prepare()
-    files, notes, cover = f1.build(idx, CFGS, 'col', spec, per_file=40)
+    files, notes, cover = f1.build(idx, CFGS, 'col', spec, per_file=40, pid='C06')
     per_fn = 4 if tier == 'quick' else 40
     return f1.run('C06', tier, seed, idx, info, t0, files, notes, cover, HDR, per_fn,
         'one lemma per accessor / constructor / product-with-vector of the 7 matrix and 4 affine types (x literal indices for col, row and the minor constructors) in the sse2, scalar-math and core-simd configurations, against the column-major entry view, for all Ops; correspondence: %d random calls per function (entries with NaN payloads, -0)' % per_fn,
